@@ -728,7 +728,8 @@ def gen_nodefail(rng, clean, mounts=None):
     for n in [0] + ([2] if nn == 3 else []):
         for m in sc.mounts:
             w = sc.connect(node=n, mount=m)
-            sc.sub(w, [("#" if mounts else rng.choice(["#", wt if wt else "#", "+/+", "w/#"]), rng.choice([0, 1]))])
+            # every watcher's filter matches the will topic: a will that is (or is not) published is always seen
+            sc.sub(w, [("#" if mounts else rng.choice(["#", wt]), rng.choice([0, 1]))])
             watchers.append(w)
     dying = sc.connect(node=1, mount=sc.mounts[0], will=(wt, rng.choice(["6279", "00"]), rng.choice([0, 1]), 0))
     # a second session on the failing node, in the LAST mount point, with a will of its own when that is another tenant
@@ -1254,8 +1255,24 @@ def corpus_split_length_field_among_many(rng):
     return sc
 
 
+def corpus_displacer_gone_before_ping(rng):
+    """X is displaced by a newer session with its client id, the newer session leaves again (DISCONNECT or loss), then X
+    performs its keep-alive exchange: X is no longer the session of that identifier and stops being served"""
+    sc = Scenario(rng, rng.choice([1, 2]), 1)
+    a = sc.connect(node=0, cid="idX", will=rng.choice([None, ("w/t", "6465", 0, 0)]))
+    sc.sub(a, [("a/#", 1)])
+    b = sc.connect(node=sc.nn - 1, cid="idX")
+    sc.end(b, rng.choice(["disconnect", "drop"]))
+    sc.clients[a]["alive"] = False
+    sc.emit(f"ping {a}", {a: ["CLOSED"]}, "displaced-session-still-served")
+    sc.gossip()
+    sc.check_state()
+    return sc
+
+
 def corpus(rng, names):
-    table = {"broken-recipient": corpus_broken_recipient_does_not_stop_fanout,
+    table = {"displacer-gone-before-ping": corpus_displacer_gone_before_ping,
+             "broken-recipient": corpus_broken_recipient_does_not_stop_fanout,
              "late-pubrel-after-timeout": corpus_late_pubrel_after_timeout,
              "takeover-with-unacked-delivery": corpus_takeover_with_unacked_delivery,
              "takeover-then-stale-snapshot": corpus_takeover_then_stale_snapshot,
